@@ -214,15 +214,45 @@ func actualObs(u *universe, r lib.RStoreI) (s string, err error) {
 				fmt.Fprintf(&sb, "F%x[", p)
 			}
 			n := 0
+			var plain strings.Builder
 			for ; it.Valid(); it.Next() {
-				fmt.Fprintf(&sb, "%x=%s,", it.Key(), it.Value())
+				fmt.Fprintf(&plain, "%x=%s,", it.Key(), it.Value())
 				if n++; n > 64 {
 					it.Close()
 					return "", fmt.Errorf("iterator does not terminate")
 				}
 			}
 			it.Close()
+			sb.WriteString(plain.String())
 			sb.WriteString("]")
+			// the same iteration with a point read between opening the iterator and its first use (a key below and a
+			// key above the prefix): an open iterator is a snapshot of its range, other reads must not disturb it
+			for _, probe := range [][]byte{u.keys[0], u.keys[len(u.keys)-1]} {
+				var it2 lib.IteratorI
+				if rev {
+					it2, e = r.RevIterator(p)
+				} else {
+					it2, e = r.Iterator(p)
+				}
+				if e != nil {
+					return "", e
+				}
+				if _, e = r.Get(probe); e != nil {
+					it2.Close()
+					return "", e
+				}
+				var again strings.Builder
+				for n = 0; it2.Valid(); it2.Next() {
+					fmt.Fprintf(&again, "%x=%s,", it2.Key(), it2.Value())
+					if n++; n > 64 {
+						break
+					}
+				}
+				it2.Close()
+				if again.String() != plain.String() {
+					fmt.Fprintf(&sb, "!after-Get(%x)-between-open-and-first-use:[%s]", probe, again.String())
+				}
+			}
 		}
 		sb.WriteString(";")
 	}
@@ -288,8 +318,10 @@ const (
 	opCopy
 	opCopySet
 	opCompact
-	opView     // open a read-only view at version arg (relative: version - arg)
-	opRollback // rollback to version-arg
+	opView        // open a read-only view at version arg (relative: version - arg)
+	opRollback    // rollback to version-arg
+	opDiscardKeep // Discard() of the innermost nested transaction, which stays in use afterwards
+	opFlushKeep   // Flush() of the innermost nested transaction into its parent; it stays in use afterwards
 )
 
 type op struct {
@@ -325,6 +357,10 @@ func (o op) String() string {
 		return fmt.Sprintf("OpenView(version-%d)", o.arg)
 	case opRollback:
 		return fmt.Sprintf("Rollback(version-%d)", o.arg)
+	case opDiscardKeep:
+		return "NestedDiscard(keep using it)"
+	case opFlushKeep:
+		return "NestedFlush(keep using it)"
 	}
 	return "?"
 }
@@ -341,11 +377,12 @@ func alphabet(u *universe, thorough bool) []op {
 	}
 	if u.name == "narrow" {
 		return append(a, op{kind: opCommit}, op{kind: opNest}, op{kind: opFlush}, op{kind: opDiscard},
-			op{kind: opRollback, arg: 1}, op{kind: opRollback, arg: 2}, op{kind: opView, arg: 1})
+			op{kind: opRollback, arg: 1}, op{kind: opRollback, arg: 2}, op{kind: opView, arg: 1}, op{kind: opDiscardKeep}, op{kind: opFlushKeep})
 	}
 	a = append(a, op{kind: opCommit}, op{kind: opNest}, op{kind: opFlush}, op{kind: opDiscard},
 		op{kind: opReset}, op{kind: opCopy}, op{kind: opCopySet, key: 0, val: 1},
 		op{kind: opView, arg: 0}, op{kind: opView, arg: 1}, op{kind: opCompact}, op{kind: opRollback, arg: 1})
+	a = append(a, op{kind: opDiscardKeep}, op{kind: opFlushKeep}) // appended: earlier indices (replay artefacts) stay valid
 	if thorough {
 		a = append(a, op{kind: opView, arg: 2}, op{kind: opRollback, arg: 2})
 	}
@@ -434,6 +471,25 @@ func (w *world) apply(o op) (enabled bool, err error) {
 		w.top().Discard()
 		w.nested = w.nested[:len(w.nested)-1]
 		m.levels = m.levels[:lvl]
+	case opDiscardKeep:
+		if lvl == 0 || len(m.levels[lvl]) == 0 {
+			return false, nil
+		}
+		w.iterateAll(w.top()) // whatever an iteration leaves behind in the transaction must not survive the Discard
+		w.top().Discard()
+		m.levels[lvl] = overlay{}
+	case opFlushKeep:
+		if lvl == 0 || len(m.levels[lvl]) == 0 {
+			return false, nil
+		}
+		w.iterateAll(w.top())
+		if e := w.top().Flush(); e != nil {
+			return true, e
+		}
+		for k, v := range m.levels[lvl] {
+			m.levels[lvl-1][k] = v
+		}
+		m.levels[lvl] = overlay{}
 	case opCommit:
 		if lvl != 0 || m.version >= 4 {
 			return false, nil
@@ -450,6 +506,7 @@ func (w *world) apply(o op) (enabled bool, err error) {
 		if lvl != 0 || len(m.levels[0]) == 0 {
 			return false, nil
 		}
+		w.iterateAll(w.st)
 		w.st.Reset()
 		m.levels[0] = overlay{}
 	case opCopy:
@@ -531,6 +588,29 @@ func (w *world) apply(o op) (enabled bool, err error) {
 		m.views, w.views = kv, kr
 	}
 	return true, nil
+}
+
+// iterateAll opens and consumes a forward and a reverse iterator for every prefix of the universe (results ignored:
+// the readers are compared with the model at the end of the path).
+func (w *world) iterateAll(r lib.RStoreI) {
+	for _, p := range w.u.prefixes {
+		for _, rev := range []bool{false, true} {
+			var it lib.IteratorI
+			var e lib.ErrorI
+			if rev {
+				it, e = r.RevIterator(p)
+			} else {
+				it, e = r.Iterator(p)
+			}
+			if e != nil {
+				continue
+			}
+			for n := 0; it.Valid() && n < 64; n++ {
+				it.Next()
+			}
+			it.Close()
+		}
+	}
 }
 
 // mismatch is one reader whose observation differs from the model.
